@@ -539,3 +539,43 @@ Section Known.
     - symmetry. apply mem_N_In'. apply filter_In. split; [exact Hrange|exact Ehere].
   Qed.
 End Known.
+
+(* ---------- the same for ref_write_multi: its own checks supply everything but the clause on mp_nums ---------- *)
+Lemma NoDup_app_disj {A} : forall (l1 l2 : list A) x, NoDup (l1 ++ l2) -> In x l1 -> In x l2 -> False.
+Proof.
+  induction l1 as [|y l1 IH]; intros l2 x H H1 H2; [contradiction|]. cbn [app] in H. inversion H as [|? ? Hn Hd]; subst.
+  destruct H1 as [->|H1]; [apply Hn; apply in_or_app; right; exact H2|apply (IH l2 x Hd H1 H2)].
+Qed.
+
+Definition multi_tops (st : fstyle) (a : adoc) : list top :=
+  match containers (a_objs a) (s_ostms st) with Some conts => rw_tops st a conts | None => [] end.
+
+Theorem multi_members_named st parts a file :
+  ref_write_multi st parts a = Some file ->
+  (forall p n, In p parts -> In n (mp_nums p) -> ~ In n (compressed_nums st)) ->
+  forall p n c k, In p parts -> find_comp (part_containers st p) n = Some (c, k) ->
+    lookup_entry (final_known st a (multi_tops st a) parts (N.of_nat (length (header st (a_version a)))) None [] 0) n = Some (SComp c k).
+Proof.
+  intros H Hdom p n c k Hp Hf. unfold ref_write_multi in H.
+  destruct (contains (bs "%PDF-") (s_junk st) || contains [x0d] (a_version a) || contains [x0a] (a_version a)); [discriminate H|].
+  match type of H with (if ?c then _ else _) = _ => destruct c eqn:C2 end; [discriminate H|].
+  apply negb_false_iff in C2. apply andb_true_iff in C2 as [C2 _]. apply andb_true_iff in C2 as [C2a C2b].
+  apply nodup_N_spec in C2a. apply nodup_N_spec in C2b.
+  unfold multi_tops. destruct (containers (a_objs a) (s_ostms st)) as [conts|] eqn:Ec; [|discriminate H].
+  fold (rw_tops st a conts) in H.
+  match type of H with (if ?c then _ else _) = _ => destruct c eqn:C3 end; [discriminate H|].
+  apply negb_false_iff in C3. apply andb_true_iff in C3 as [C3a _]. apply nodup_N_spec in C3a.
+  destruct (write_parts st a (rw_tops st a conts) parts (N.of_nat (length (header st (a_version a)))) None [] 0) as [r|] eqn:Ew; [|discriminate H].
+  assert (Hmem : forall m, In m (compressed_nums st) -> In m (map (fun io : oid * obj => fst (fst io)) (a_objs a))).
+  { intros m K. unfold compressed_nums in K. apply in_flat_map in K as [s [K1 K2]]. apply (containers_members _ _ _ Ec s m K1 K2). }
+  apply (known_names_members st a (rw_tops st a conts) C2b) with (r := r) (p := p); try assumption.
+  - intros t Ht K. unfold rw_tops in Ht. apply in_app_or in Ht as [Ht|Ht].
+    + apply in_map_iff in Ht as [io [E1 E2]]. apply filter_In in E2 as [_ E2]. subst t. cbn [fst] in K.
+      apply mem_N_In' in K. rewrite K in E2. discriminate E2.
+    + assert (K2 : In (fst (fst (fst t))) (map os_id (s_ostms st))).
+      { rewrite <- (containers_nums _ _ _ Ec). apply in_map_iff. exists t. split; [reflexivity|exact Ht]. }
+      apply (NoDup_app_disj _ _ _ C2a (Hmem _ K)). apply in_or_app. left. exact K2.
+  - apply Forall_forall. intros q Hq. split; [intros m Hm; apply (Hdom q m Hq Hm)|].
+    intros m Hm K. apply (NoDup_app_disj _ _ _ C2a (Hmem _ K)). apply in_or_app. right.
+    unfold part_xids. apply in_flat_map. exists q. split; [exact Hq|exact Hm].
+Qed.
